@@ -48,8 +48,14 @@ def item_term(d, weights):
     return Ctor("MkItem", d["id"], d["prio"], d["dl"], d["flow"], weights.get(str(d["flow"]), 1))
 
 
-def pol_term(p):
+def pol_term(p, sched=()):
     k = p["kind"]
+    if k == "red":
+        return Ctor("PRed", p["cap"], [], Raw("rs0"))
+    if k == "codel":
+        return Ctor("PCodel", opt(p["cap"]), [], list(sched), Raw("cs0"))
+    if k == "adapt":
+        return Ctor("PAdapt", p["thr"], opt(p["cap"]), [], False, Raw("as0"))
     if k == "fifo":
         return Ctor("PFifo", opt(p["cap"]), [])
     if k == "lifo":
@@ -63,7 +69,7 @@ def pol_term(p):
     if k == "wfq":
         return Ctor("PWfq", opt(p["cap"]), opt(p["pfc"]), [], 0, Raw("ws0"))
     if k == "balk":
-        return Ctor("PBalk", p["thr"], 0, pol_term(p["inner"]))
+        return Ctor("PBalk", p["thr"], 0, pol_term(p["inner"], sched))
     raise ValueError(k)
 
 
@@ -105,6 +111,18 @@ def make_policy(p, get, clock_ns, rand):
         w = p["weights"]
         return WeightedFairQueue(get_flow_id=lambda it: get(it).flow, get_weight=lambda f: w.get(str(f), 1),
                                  capacity=p["cap"], per_flow_capacity=p["pfc"])
+    if k == "red":
+        import happysimulator.components.queue_policies.red as rmod
+        rmod.random = rand
+        return rmod.REDQueue(min_threshold=p["minth"], max_threshold=p["maxth"], max_probability=1.0, capacity=p["cap"], weight=0.5)
+    if k == "codel":
+        from happysimulator.components.queue_policies.codel import CoDelQueue
+        u = p.get("unit", 1)
+        return CoDelQueue(target_delay=p["target"] * u / 1e9, interval=p["interval"] * u / 1e9, capacity=p["cap"],
+                          clock_func=lambda: Instant(clock_ns()))
+    if k == "adapt":
+        from happysimulator.components.queue_policies.adaptive_lifo import AdaptiveLIFO
+        return AdaptiveLIFO(congestion_threshold=p["thr"], capacity=p["cap"])
     if k == "balk":
         import happysimulator.components.industrial.balking as bmod
         bmod.random = rand
@@ -145,6 +163,17 @@ def snap_policy(pol, get):
             per += [fid, fs.weight, fs.credits]
         return [len(pol), [get(x).id for fs in pol._flows.values() for x in fs.queue],
                 [len(pol._flows), s.enqueued, s.dequeued, s.rejected_capacity, s.flows_created, s.flows_removed] + per]
+    if name == "REDQueue":
+        s = pol.stats
+        return [len(pol), [get(x).id for x in pol._queue],
+                [s.enqueued, s.dequeued, s.dropped_probabilistic + s.dropped_forced, s.capacity_rejected]]
+    if name == "CoDelQueue":
+        s = pol.stats
+        return [len(pol), [get(x.item).id for x in pol._queue], [s.enqueued, s.dequeued, s.dropped, s.capacity_rejected]]
+    if name == "AdaptiveLIFO":
+        s = pol.stats
+        return [len(pol), [get(x).id for x in pol._queue],
+                [1 if pol._was_congested else 0, s.enqueued, s.dequeued_fifo, s.dequeued_lifo, s.capacity_rejected, s.mode_switches]]
     if name == "BalkingQueue":
         n, ids, cs = snap_policy(pol.inner, get)
         return [n, ids, [pol.balked] + cs]
@@ -152,8 +181,16 @@ def snap_policy(pol, get):
 
 
 def gen_policy_cfg(rng, allow_balk=True):
-    k = rng.choice(["fifo", "lifo", "prio", "dead", "fair", "wfq"] + (["balk"] if allow_balk else []))
+    k = rng.choice(["fifo", "lifo", "prio", "dead", "fair", "wfq", "codel", "adapt"] + (["balk", "red"] if allow_balk else []))
     cap = rng.choice([None, None, 1, 2, 3, 4])
+    if k == "red":
+        mn = rng.choice([0, 0, 1, 2])
+        mx = mn + rng.randint(1, 3)
+        return dict(kind=k, minth=mn, maxth=mx, cap=mx + rng.randint(0, 2))
+    if k == "codel":
+        return dict(kind=k, cap=cap, target=rng.choice([1, 2, 5]), interval=rng.choice([1, 3, 10]))
+    if k == "adapt":
+        return dict(kind=k, thr=rng.randint(1, 4), cap=cap)
     if k in ("fifo", "lifo", "prio"):
         if rng.random() < 0.1:
             cap = 0
@@ -228,23 +265,35 @@ def _expired_of(prev_ids, ob):
 
 def encode_policy(c, obs):
     w = pol_weights(c["policy"])
-    ops, obl = [], []
+    kind = base_kind(c["policy"])
+    ops, obl, sched = [], [], []
     prev = []
+    prev_drop = 0
     for o, ob in zip(c["ops"], obs):
         if o[0] == "push":
-            ops.append(Ctor("OPush", o[2], item_term(o[1], w)))
+            balk = o[2]
+            if kind == "red":       # the early-drop decision (float EWMA + draw) is an input of the model
+                balk = ob["snap"][2][2] > prev_drop
+                prev_drop = ob["snap"][2][2]
+            ops.append(Ctor("OPush", balk, item_term(o[1], w)))
             obl.append(((ob["ok"], None, []), (ob["snap"][0], ob["snap"][1], ob["snap"][2])))
         else:
             ops.append(Ctor("OPop", o[1]))
             ex = _expired_of(prev, ob)
-            # expired items are reported in (deadline, order) order = order in the previous snapshot
+            if kind == "codel" and ob["res"] is not None:
+                sched.append(len(ex))
+            # expired/dropped items are reported in the order of the previous snapshot
             obl.append(((True, opt(ob["res"]), ex), (ob["snap"][0], ob["snap"][1], ob["snap"][2])))
         prev = ob["snap"][1]
-    return term((pol_term(c["policy"]), ops, obl))
+    return term((pol_term(c["policy"], sched), ops, obl))
 
 
 def base_kind(p):
     return base_kind(p["inner"]) if p["kind"] == "balk" else p["kind"]
+
+
+def base_policy(p):
+    return base_policy(p["inner"]) if p["kind"] == "balk" else p
 
 
 def oracle_policy(c, obs):
@@ -262,7 +311,7 @@ def oracle_policy(c, obs):
         n = ob["snap"][0]
         if ob["cap"] is not None and n > ob["cap"]:
             fails.append(dict(clause="a policy never holds more than its capacity", step=idx, len=n, cap=ob["cap"]))
-        if kind in ("fifo", "lifo", "prio", "dead") and inner.get("cap") is not None and n > inner["cap"]:
+        if kind in ("fifo", "lifo", "prio", "dead", "red", "codel", "adapt") and inner.get("cap") is not None and n > inner["cap"]:
             fails.append(dict(clause="a policy never holds more than its capacity", step=idx, len=n, cap=inner["cap"]))
         if o[0] == "push":
             if ob["ok"]:
@@ -288,13 +337,21 @@ def oracle_policy(c, obs):
                     if not h[1]["dl"] < now:
                         fails.append(dict(clause="deadline queue drops only expired items", step=idx, item=h[1]))
                 cand = [h for h in held if not h[1]["dl"] < now]
+            elif kind == "codel":
+                # CoDel drops (and counts) items from the head of the line, right behind the item it returns
+                rest = sorted((h for h in held if h[1]["id"] != res), key=lambda h: h[0])
+                if sorted(expired, key=lambda h: h[0]) != rest[:len(expired)] or (expired and res is None):
+                    fails.append(dict(clause="CoDel drops only from the head of the line", step=idx))
+                cand = [h for h in held if h not in expired]
             elif expired:
                 fails.append(dict(clause="items vanish from the policy without being popped", step=idx,
                                   ids=[h[1]["id"] for h in expired]))
             exp_res = None
             if cand:
-                if kind == "fifo":
+                if kind in ("fifo", "red", "codel"):
                     exp_res = min(cand, key=lambda h: h[0])
+                elif kind == "adapt":
+                    exp_res = (max if len(held) >= inner["thr"] else min)(cand, key=lambda h: h[0])
                 elif kind == "lifo":
                     exp_res = max(cand, key=lambda h: h[0])
                 elif kind == "prio":
@@ -483,6 +540,7 @@ def impl_pipe(c):
     clockbox = {}
     for si in reversed(range(len(c["stages"]))):
         st = c["stages"][si]
+        base_policy(st["policy"])["unit"] = tick
         pol = make_policy(st["policy"], _meta, lambda: clockbox["e"].now.nanoseconds, rand)
         if st["worker"] == "server":
             srv = Server(f"srv{si}", concurrency=st["limit"], service_time=Lat(st["svc"]), queue_policy=pol, downstream=nxt)
@@ -562,8 +620,13 @@ def _instrument(srv, pol, rand, log, state, QueuePollEvent, QueueNotifyEvent, Qu
             log.append(dict(t=now(), h="poll", out=classify(r), st=state(), q=qsnap()))
             return r
         rand.next_balk = bool(ev.context["metadata"].get("balk"))
+        red = _find_red(pol)
+        before = (red.stats.dropped_probabilistic + red.stats.dropped_forced) if red is not None else 0
         r = q_orig(ev)
-        log.append(dict(t=now(), h="enq", item=ev.context["metadata"]["item"], balk=rand.next_balk, out=classify(r),
+        balk = rand.next_balk
+        if red is not None:   # RED's early-drop decision (float EWMA + draw) is an input of the model
+            balk = (red.stats.dropped_probabilistic + red.stats.dropped_forced) > before
+        log.append(dict(t=now(), h="enq", item=ev.context["metadata"]["item"], balk=balk, out=classify(r),
                         st=state(), q=qsnap()))
         return r
 
@@ -633,6 +696,14 @@ def _instrument(srv, pol, rand, log, state, QueuePollEvent, QueueNotifyEvent, Qu
         srv._handle_shift_change = sc_logged
 
 
+def _find_red(pol):
+    while pol is not None:
+        if type(pol).__name__ == "REDQueue":
+            return pol
+        pol = getattr(pol, "inner", None) if type(pol).__name__ == "BalkingQueue" else None
+    return None
+
+
 def pev_term(o):
     k = o[0]
     if k == "notify":
@@ -694,8 +765,13 @@ def encode_pipe(c, obs):
     for st, log in zip(c["stages"], obs["logs"]):
         w = pol_weights(st["policy"])
         tr = []
+        sched, prev_ids = [], []
         for s in pipe_steps(log):
             lb = s["label"]
+            if lb[0] == "fire" and lb[2][0] == "poll" and any(o[0] == "deliver" for o in s["out"]):
+                delivered = [o[1] for o in s["out"] if o[0] == "deliver"]
+                sched.append(len([x for x in prev_ids if x not in s["q"][1] and x not in delivered]))
+            prev_ids = s["q"][1]
             if lb[0] == "arrive":
                 it = dict(lb[2])
                 it["dl"] = it["dl_ns"]
@@ -705,7 +781,8 @@ def encode_pipe(c, obs):
             else:
                 lt = Ctor("LFire", lb[1], pev_term(lb[2]))
             tr.append((lt, [pev_term(o) for o in s["out"]], s["st"], (s["q"][0], s["q"][1], s["q"][2])))
-        out.append((Raw(WKIND[st["worker"]]), pol_term(st["policy"]), initial_limit(st), tr))
+        out.append((Raw(WKIND[st["worker"]]), pol_term(st["policy"], sched if base_kind(st["policy"]) == "codel" else ()),
+                    initial_limit(st), tr))
     return term(out)
 
 
@@ -862,7 +939,111 @@ def describe_pipe(c):
 
 
 # --------------------------------------------------------------------------- industrial components
+def gen_conc(rng):
+    m = rng.choice(["fixed", "dyn", "weighted"])
+    c = dict(kind="conc", model=m, ops=[])
+    if m == "fixed":
+        c["mx"] = rng.randint(1, 3)
+    elif m == "dyn":
+        c["mn"] = rng.randint(1, 2)
+        c["mxl"] = rng.choice([None, c["mn"] + rng.randint(0, 3)])
+        c["init"] = c["mn"] + (rng.randint(0, 2) if c["mxl"] is None else rng.randint(0, c["mxl"] - c["mn"]))
+    else:
+        c["total"] = rng.randint(1, 6)
+    for _ in range(rng.randint(1, 30)):
+        k = rng.random()
+        w = rng.choice([1, 1, 1, 2, 3, 0, -1]) if m == "weighted" else rng.choice([1, 1, 2])
+        if k < 0.4:
+            c["ops"].append(["acquire", w])
+        elif k < 0.7:
+            c["ops"].append(["release", w])
+        elif k < 0.85 or m != "dyn":
+            c["ops"].append(["has", w])
+        else:
+            c["ops"].append([rng.choice(["set", "up", "down"]), rng.randint(0, 4)])
+    return c
+
+
+def impl_conc(c):
+    from happysimulator.components.server.concurrency import DynamicConcurrency, FixedConcurrency, WeightedConcurrency
+    if c["model"] == "fixed":
+        m = FixedConcurrency(c["mx"])
+    elif c["model"] == "dyn":
+        m = DynamicConcurrency(c["init"], min_limit=c["mn"], max_limit=c["mxl"])
+    else:
+        m = WeightedConcurrency(c["total"])
+    out = []
+    for op, a in c["ops"]:
+        lim_before = m.limit
+        try:
+            if op == "acquire":
+                r = 1 if m.acquire(a) else 0
+            elif op == "release":
+                m.release(a)
+                r = 0
+            elif op == "has":
+                r = 1 if m.has_capacity(a) else 0
+            elif op == "set":
+                m.set_limit(a)
+                r = 0
+            elif op == "up":
+                m.scale_up(a)
+                r = 0
+            else:
+                m.scale_down(a)
+                r = 0
+        except ValueError:
+            r = 2
+        out.append(dict(res=r, active=m.active, limit=m.limit, available=m.available, lim_before=lim_before))
+    return dict(log=out, verdict="ok")
+
+
+def encode_conc(c, obs):
+    if c["model"] == "fixed":
+        m = Ctor("CFixed", c["mx"], 0)
+    elif c["model"] == "dyn":
+        m = Ctor("CDyn", c["init"], c["mn"], opt(c["mxl"]), 0)
+    else:
+        m = Ctor("CWeighted", c["total"], 0)
+    tr = []
+    for (op, a), e in zip(c["ops"], obs["log"]):
+        if op == "acquire":
+            o = Ctor("CAcquire", a)
+        elif op == "release":
+            o = Ctor("CRelease", a)
+        elif op == "has":
+            o = Ctor("CHasCap", a)
+        elif op == "set":
+            o = Ctor("CSetLimit", a)
+        elif op == "up":
+            o = Ctor("CSetLimit", e["lim_before"] + a)
+        else:
+            o = Ctor("CSetLimit", e["lim_before"] - a)
+        tr.append((o, (e["res"], e["active"], e["limit"])))
+    return term(Ctor("IConc", m, tr))
+
+
+def oracle_conc(c, obs):
+    fails = []
+    prev_active = 0
+    for idx, ((op, a), e) in enumerate(zip(c["ops"], obs["log"])):
+        if op == "acquire" and e["res"] == 1 and e["active"] > e["limit"]:
+            fails.append(dict(clause="work in service never exceeds the concurrency limit (concurrency model admits above its limit)", step=idx))
+        if c["model"] != "dyn" and not 0 <= e["active"] <= e["limit"]:
+            fails.append(dict(clause="work in service never exceeds the concurrency limit (concurrency model)", step=idx, active=e["active"]))
+        if op == "acquire" and e["res"] != 1 and e["active"] != prev_active:
+            fails.append(dict(clause="a refused acquire does not take capacity", step=idx))
+        if op == "has" and c["model"] != "weighted" and (e["res"] == 1) != (e["active"] < e["limit"]):
+            fails.append(dict(clause="has_capacity agrees with active < limit", step=idx))
+        if e["active"] < 0:
+            fails.append(dict(clause="active count is never negative", step=idx))
+        prev_active = e["active"]
+    return fails[:2]
+
+
 def gen_ind(rng):
+    if rng.random() < 0.2:
+        return gen_conc(rng)
     kind = rng.choice(["pooled", "pooled", "gate", "conveyor", "batch"])
     times = rng.choice([[0], [0, 0, 5], [0, 5, 10, 10], [0, 1, 2, 3, 10], [0, 10, 20]])
     n = rng.randint(1, 9)
@@ -882,6 +1063,8 @@ def gen_ind(rng):
 
 
 def impl_ind(c):
+    if c["kind"] == "conc":
+        return impl_conc(c)
     from collections.abc import Generator
 
     from happysimulator.components.industrial.batch_processor import BatchProcessor
@@ -1035,6 +1218,8 @@ def impl_ind(c):
 
 def encode_ind(c, obs):
     k = c["kind"]
+    if k == "conc":
+        return encode_conc(c, obs)
     tr = []
     for e in obs["log"]:
         i, out = e["i"], e["out"]
@@ -1099,6 +1284,8 @@ def oracle_ind(c, obs):
     if obs["verdict"] != "ok":
         return [dict(clause="the run terminates", verdict=obs["verdict"])]
     k = c["kind"]
+    if k == "conc":
+        return oracle_conc(c, obs)
     log = obs["log"]
     fails = []
     offered = sorted(a["id"] for a in c["arrivals"])
@@ -1270,8 +1457,8 @@ FAMILIES = [
            nontrivial=nontrivial_pipe, attribute=attribute_pipe, parallel=True,
            describe=describe_pipe),
     Family("industrial", "From HS Require Import Base.Prelude C08.Model C08.IndModel.", "ok_ind", "icase", gen_ind, impl_ind,
-           encode_ind, oracle_ind, nontrivial=lambda c, o: len({a["t"] for a in c["arrivals"]}) < len(c["arrivals"]),
-           attribute=attribute_ind, parallel=True, describe=lambda c: c["kind"]),
+           encode_ind, oracle_ind, nontrivial=lambda c, o: c["kind"] == "conc" or len({a["t"] for a in c["arrivals"]}) < len(c["arrivals"]),
+           attribute=attribute_ind, parallel=True, describe=lambda c: c["kind"] + ("/" + c["model"] if c["kind"] == "conc" else "")),
 ]
 
 TRUSTED = [
@@ -1284,11 +1471,26 @@ TRUSTED = [
 ]
 
 
+class _Sharded:
+    """Same Ctx, but the in-Coq evaluation of a family is split into small shards that coqc
+    evaluates in parallel (one big cases.v is dominated by parsing time)."""
+
+    def __init__(self, ctx, shard):
+        self._ctx, self._shard = ctx, shard
+
+    def __getattr__(self, name):
+        return getattr(self._ctx, name)
+
+    def coq_cases(self, tag, imports, ok_fn, case_type, cases):
+        from hsverif import coq
+        return coq.eval_cases(f"{self._ctx.pid}_{tag}", imports, ok_fn, case_type, cases, shard=self._shard, workers=12)
+
+
 def run(ctx):
     ctx.prove(COQ_FILES, allowed_axioms=(), trusted_base=TRUSTED)
     stats = []
-    for fam, n in ((FAMILIES[0], ctx.n(400, 8000)), (FAMILIES[1], ctx.n(400, 8000)), (FAMILIES[2], ctx.n(300, 6000))):
-        stats.append(run_family(ctx, fam, n))
+    for fam, n in ((FAMILIES[0], ctx.n(350, 6000)), (FAMILIES[1], ctx.n(350, 5000)), (FAMILIES[2], ctx.n(300, 5000))):
+        stats.append(run_family(_Sharded(ctx, 400), fam, n))
         ctx.log(f"family {fam.name}: {stats[-1]['cases']} cases, mismatches={stats[-1]['mismatches']}, "
                 f"oracle failures={stats[-1]['oracle_failures']} (known {stats[-1]['known']})")
     merge_stats(ctx, stats, "policy: random push/pop sequences over 7 policy kinds with small capacities, deadlines around the clock, "
